@@ -101,6 +101,9 @@ func unmarshalStruct(result Result, val reflect.Value, settings ...ContextApply)
 
 		if ok {
 			err = setField(name, field, fieldVal, false)
+		} else if field.Kind() == reflect.Struct && field.CanAddr() && field.CanSet() {
+			// Fill a nested struct in place so its untagged fields are kept.
+			err = unmarshal(result, field.Addr().Interface(), settings...)
 		} else {
 			ptr := reflect.New(fieldType)
 			ptr.Elem().Set(reflect.Zero(fieldType))
